@@ -277,8 +277,8 @@ inductive Key
   | other
   deriving DecidableEq, Repr
 
-/-- `RouteKey(rule, pattern=pattern)`: the items of the dict it becomes, or `TypeError` when
-both are given (`check_args`).  A false `rule` (`None`, `''`) is dropped: the key is then
+/-- `RouteKey.__init__(rule, pattern=pattern)` / `RouteKey.check_args`: the items of the dict it
+becomes, or `TypeError` when both are given.  A false `rule` (`None`, `''`) is dropped: the key is then
 `{'pattern': pattern}` even when `pattern` is `None`. -/
 def routeKeyNew (rule pattern : KAtom) : Except ErrName (List (KAtom × KAtom)) :=
   if (([rule, pattern].filter (· != KAtom.none)).length > 1) then .error "TypeError"
@@ -409,7 +409,8 @@ def Router.listingText (pr : Char → Bool) (ht : HandlerText) (R : Router) : St
 
 /-! ## 16. the wrappers of `Ombott` -/
 
-/-- `Ombott.add_route(rule, method, handler, name, overwrite=…)`: `method` may be one `str`
+/-- `Ombott.add_route(rule, method, handler, name, overwrite=…)` (and through it `Ombott.route` and
+the verb shortcuts): `method` may be one `str`
 (`RadiRouter.add` wraps it into a list) -/
 def Router.appAddRoute (upper : Str → Str) (cenv : CompileEnv) (R : Router) (a : AddArgs) :
     Router × Except ErrName Nat := R.add upper cenv a
